@@ -34,6 +34,10 @@ def rand_small_int(rng, depth_hint):
     """indices near stack boundaries + extremes"""
     r = rng.random()
     if r < 0.5: return rng.randrange(-2, depth_hint + 3)
+    if r < 0.56:
+        from gen.pools import THRESH
+        t = rng.choice(THRESH)                          # a multiple of 2^8 / 2^16 plus a small in-range offset: what a wrapped cast would alias
+        return rng.choice([t, t + rng.randrange(0, depth_hint + 1), -t])
     if r < 0.7: return rng.choice(I32)
     return rng.randrange(-10, 11)
 
